@@ -24,7 +24,7 @@ def sh(cmd, **kw):
 def main():
     sd = os.path.abspath(sys.argv[1])
     meta = json.load(open(os.path.join(sd, "meta.json")))
-    props = sys.argv[2:] or [meta["property"]]
+    props = sys.argv[2:] or meta.get("check_with") or [meta["property"]]
     tier = os.environ.get("SEED_TIER", "quick")
     name = os.path.basename(sd.rstrip("/"))
     wt = "/tmp/seedrun/" + name
